@@ -194,9 +194,9 @@ def run(ctx):
                 appends_bad = appends_bad or "%d calls writing the vAMM map on a success path" % len(ws)
             # payment tree
             pay = None
-            for (at, o, _b, _l) in q.conds:
-                if tag(at) == "call" and payload(at)[0].endswith(("Integer::is_negative", "Integer::is_positive", "Integer::is_zero")):
-                    pay = kids(at)[0]
+            stests = sign_tests(ix, q.conds)
+            for (_k, x_, _o) in stests:
+                pay = x_
             if pay is None:
                 pay_bad = pay_bad or "no sign test of the funding payment"
                 continue
@@ -206,13 +206,13 @@ def run(ctx):
                 pay_bad = pay_bad or "payment is %s, not total_position_size * premium_fraction / decimals" % norm.show(N(ix, pay))
             # direction table
             neg = pos = zero = None
-            for (at, o, _b, _l) in q.conds:
-                if tag(at) == "call" and kids(at) and kids(at)[0] == pay:
-                    if payload(at)[0].endswith("is_negative"):
+            for (k_, x_, o) in stests:
+                if x_ == pay:
+                    if k_ == "is_negative":
                         neg = o
-                    if payload(at)[0].endswith("is_positive"):
+                    if k_ == "is_positive":
                         pos = o
-                    if payload(at)[0].endswith("is_zero"):
+                    if k_ == "is_zero":
                         zero = o
             kinds = set()
             for s in em.emitted(q):
